@@ -32,6 +32,15 @@ def main():
         resource.setrlimit(resource.RLIMIT_AS, (MEM_BYTES, MEM_BYTES))
     except Exception:
         pass
+    cov = None
+    if os.environ.get("VERIF_COVERAGE"):      # tools/coverage_run.sh: which lines of /repo do the drivers reach?
+        try:
+            import coverage
+            cov = coverage.Coverage(branch=True, data_file=os.path.join(os.environ["VERIF_COVERAGE"], f"cov.{os.getpid()}"),
+                                    include=[os.path.join(os.environ.get("VERIF_REPO", "/repo"), "pyannote", "core", "*")])
+            cov.start()
+        except Exception:
+            cov = None
     mod = importlib.import_module(modname)
     cases = json.load(open(fin))
     signal.signal(signal.SIGALRM, _on_alarm)
@@ -51,6 +60,9 @@ def main():
         except Exception as e:  # an exception the driver did not anticipate
             out.append({"__exc__": f"{type(e).__name__}: {e}"[:300]})
     json.dump(out, open(fout, "w"))
+    if cov is not None:
+        cov.stop()
+        cov.save()
 
 
 if __name__ == "__main__":
